@@ -3,6 +3,7 @@
 from __future__ import annotations
 
 import ast
+import copy
 import dataclasses
 import inspect
 from collections import Counter, defaultdict
@@ -130,7 +131,7 @@ class _EvalTransformer(ast.NodeTransformer):
                             ast.Expr(
                                 ast.Call(
                                     ast.Name(id="offdiag", ctx=ast.Load()),
-                                    [node.body[0].value],
+                                    [copy.deepcopy(node.body[0].value)],
                                     [],
                                 )
                             )
@@ -383,6 +384,9 @@ class _FunctionTransformer(ast.NodeTransformer):
         Inserts the index as the last argument, preceded by all series passed as arguments.
         The series arguments are string literals, which are transformed to `series["arg"]`.
         """
+        # Transform function calls nested in the arguments (e.g. inside the
+        # `diag`/`offdiag` wrappers) before the arguments of this call.
+        self.generic_visit(node)
         node.args = [
             *(
                 _LiteralTransformer._to_series(arg)
